@@ -132,6 +132,30 @@ def run(res, ctx):
             if got.get(b, []) != alone[b]:
                 res.violation("a file's findings in this process differ from its findings in a pristine interpreter (something scanned or constructed earlier leaked)",
                               {"file": b, "program": open(p).read(), "pristine": [list(x) for x in alone[b]], "in_process": [list(x) for x in got.get(b, [])]})
+        # (1c) neighbours on disk that are NOT scanned: a file's findings are a function of its content — an `__init__.py`, a sibling module named like a standard
+        #      library module, a `py.typed` or `setup.py` appearing next to it (or in the parent directory) changes nothing (seeded change C08-m15 resolved relative
+        #      imports against the package found by looking for `__init__.py` on disk: `from .subprocess import Popen` stopped being subprocess.Popen)
+        ndir = os.path.join(scratch.root, "neigh", "acme"); os.makedirs(ndir)
+        nprogs = {"rel_from.py": "from .subprocess import Popen\nfrom .pickle import loads\nfrom . import os\n\n\ndef run(c, b):\n    Popen(c, shell=True)\n    return loads(b)\n",
+                  "rel_parent.py": "from ..pickle import loads as ld\nfrom ..xml.sax import parse\nfrom .. import subprocess\nld(b)\nparse(s)\nsubprocess.call(c, shell=True)\n",
+                  "plain.py": "import subprocess\nimport pickle\nsubprocess.Popen(c, shell=True)\npickle.loads(b)\nassert c\n"}
+        for nm, body in nprogs.items():
+            open(os.path.join(ndir, nm), "w").write(body)
+        before_ = {nm: scan([os.path.join(ndir, nm)]).get(nm, []) for nm in nprogs}
+        added_ = []
+        for rel in ("__init__.py", "subprocess.py", "pickle.py", "os.py", "py.typed", "../__init__.py", "../setup.py", "../pickle.py", "xml/__init__.py", "xml/sax.py"):
+            pth = os.path.normpath(os.path.join(ndir, rel))
+            os.makedirs(os.path.dirname(pth), exist_ok=True)
+            open(pth, "w").write("" if rel.endswith(("__init__.py", "py.typed")) else "VALUE = 1\n")
+            added_.append(rel)
+            for nm in nprogs:
+                got_ = scan([os.path.join(ndir, nm)]).get(nm, [])
+                res.case(("neighbour-files", nm, rel), bool(before_[nm]))
+                res.count("neighbour-file-cases")
+                if got_ != before_[nm]:
+                    res.violation("a file's findings changed when a file that is not scanned appeared next to it",
+                                  {"file": "acme/" + nm, "program": nprogs[nm], "files_added_so_far (relative to acme/)": list(added_), "before": [list(x) for x in before_[nm]], "after": [list(x) for x in got_]})
+                    before_[nm] = got_
         trials = [("all", paths), ("reversed", paths[::-1])]
         for k in range(6 if thorough else 3):
             sub = rng.sample(paths, rng.randint(2, len(paths)))
